@@ -403,7 +403,7 @@ impl<U> NumDecompressor<U> where U: UnsignedLike {
 
         if guaranteed_safe_num_blocks >= UNCHECKED_NUM_THRESHOLD {
           let mut block_idx = 0;
-          while block_idx < guaranteed_safe_num_blocks && unsigneds.len() < self.n {
+          while block_idx < guaranteed_safe_num_blocks && unsigneds.len() < batch_size {
             self.unchecked_decompress_num_block::<GcdOp>(reader, unsigneds, batch_size);
             block_idx += 1;
           }
